@@ -13,12 +13,12 @@ theorem trueAuth_getD (h i j : Nat) (hj : j < h) : (trueAuth h i).getD j .zero =
 /-- **transfer**: if the label-level whole-life check of height `h` succeeds, then for *every* instance of the
 node operations (every seed, every hash function) key generation returns the true root and after `i` steps
 the stored authentication path consists of the true sibling nodes of leaf `i` -/
-theorem traversal_transfer (h : Nat) (hc : checkAll h = true) :
+theorem traversal_transfer (h : Nat) (hc : TraversalCorrect h) :
     (treeHashSetup o h).2 = tree o h 0 ∧
     ∀ i, i < 2 ^ h →
       (fastForward o h i 0 (treeHashSetup o h).1).auth.length = h ∧
       ∀ j, j < h → (fastForward o h i 0 (treeHashSetup o h).1).auth.getD j o.zero = tree o j (sib (i >>> j)) := by
-  obtain ⟨hroot, hauth⟩ := checkAll_sound h hc
+  obtain ⟨hroot, hauth⟩ := hc
   obtain ⟨hs, hr⟩ := treeHashSetup_rel o h
   refine ⟨?_, fun i hi => ?_⟩
   · rw [hroot] at hr; exact hr
@@ -34,7 +34,7 @@ theorem traversal_transfer (h : Nat) (hc : checkAll h = true) :
 end Qrl.BdsRel
 
 namespace Qrl.Xmss
-open Qrl.BdsRel Qrl.BdsLabel
+open Qrl.BdsRel Qrl.BdsLabel Qrl.Bds
 
 section
 variable (hash : Bytes → Bytes) (pubSeed : Bytes)
